@@ -72,6 +72,8 @@ class Hist:
         self.flav = flav
         self.dirs = {(): {}}          # path tuple -> {folded: (name, kind)}
         self.handles = {}             # h -> (path, name, mode)
+        self.hpos = {}                # h -> approximate position
+        self.fsize = {}               # (path, folded name) -> approximate size
         self.sizes = {}               # (path, folded) -> approx size
         self.max_handles = max_handles
         self.pool = names or [b"alpha", b"Beta", b"gamma.txt", b"DELTA", b"e", b"file_with_a_long_name_of_30_ch", b"x1", b"x2", b"readme", b"\xe9t\xe9"]
@@ -107,6 +109,20 @@ class Hist:
     def any_open(self, p, name):
         f = fold(self.flav, name)
         return any(hp == p and fold(self.flav, hn) == f for (hp, hn, hm) in self.handles.values())
+
+    def key_of(self, h):
+        p, n, m = self.handles[h]
+        return (p, fold(self.flav, n))
+
+    def near(self, h):
+        """an offset near the interesting points of the file behind handle h: 0, EOF, EOF +- 1, one block beyond EOF, block boundaries"""
+        sz = self.fsize.get(self.key_of(h), 0)
+        bs = self.bs
+        r = self.rng.random()
+        if r < 0.5:
+            return max(0, self.rng.choice([0, sz - 1, sz, sz + 1, sz + bs - 1, sz + bs, sz - sz % bs, sz - sz % bs - 1, sz + (bs - sz % bs) - 1,
+                                           sz + self.rng.randrange(1, bs), sz // 2, self.hpos.get(h, 0) + self.rng.randrange(0, bs)]))
+        return self.size_choice()
 
     def size_choice(self):
         r = self.rng.random()
@@ -159,19 +175,34 @@ class Hist:
                     return ["open 7 %s %s r" % (ps, hexs(nm))]           # fails: missing
                 d[f] = (nm, "file")
             self.handles[h] = (p, d[f][0], mode)
+            self.hpos[h] = 0
             return ["open %d %s %s %s" % (h, ps, hexs(nm), mode)]
         if r < 0.5 and self.handles:            # write
             h = rng.choice(sorted(self.handles))
-            return ["write %d %d %d" % (h, rng.randrange(1, 1 << 30), self.size_choice())]
+            n = self.size_choice() if rng.random() < 0.6 else rng.choice([1, 2, 8, self.bs - 1, self.bs, self.bs + 1])
+            if "w" in self.handles[h][2]:
+                k = self.key_of(h)
+                self.hpos[h] = self.hpos.get(h, 0) + n
+                self.fsize[k] = max(self.fsize.get(k, 0), self.hpos[h])
+            return ["write %d %d %d" % (h, rng.randrange(1, 1 << 30), n)]
         if r < 0.62 and self.handles:
             h = rng.choice(sorted(self.handles))
-            return ["read %d %d" % (h, self.size_choice())]
+            n = self.size_choice()
+            if "r" in self.handles[h][2]:
+                self.hpos[h] = min(self.fsize.get(self.key_of(h), 0), self.hpos.get(h, 0) + n)
+            return ["read %d %d" % (h, n)]
         if r < 0.74 and self.handles:
             h = rng.choice(sorted(self.handles))
-            return ["seek %d %d" % (h, self.size_choice())]
+            pos = self.near(h)
+            self.hpos[h] = min(pos, self.fsize.get(self.key_of(h), 0))
+            return ["seek %d %d" % (h, pos)]
         if r < 0.80 and self.handles:
             h = rng.choice(sorted(self.handles))
-            return ["trunc %d %d" % (h, self.size_choice())]
+            sz = self.near(h)
+            if "w" in self.handles[h][2]:
+                self.fsize[self.key_of(h)] = sz
+                self.hpos[h] = sz
+            return ["trunc %d %d" % (h, sz)]
         if r < 0.84 and self.handles:
             h = rng.choice(sorted(self.handles))
             return ["flush %d" % h]
@@ -193,6 +224,7 @@ class Hist:
                         return ["rm %s %s" % (ps, hexs(nm))]          # not empty: fails
                     self.dirs.pop(sub, None)
                 del d[f]
+                self.fsize.pop((p, f), None)
             return ["rm %s %s" % (ps, hexs(nm))]
         if r < 0.97:                            # comment / prot
             nm = self.pick_name(p, existing=True)
